@@ -36,6 +36,17 @@ package internal
 //@   ensures result == nil ==> streq(wrOut[out], old(wrOut[out]) + be32(len(data)) + bytes(data))
 //@   ensures forall w io.Writer :: w != out ==> wrOut[w] == old(wrOut[w])
 
+// Round trip as one statement over the byte stream: if a stream continues at position p with
+// what writeDelimitedMessageRaw appends for a payload d (be32(len(d)) followed by d), then the
+// prefix decoded there by the readers (be32At) is len(d) and the len(d) bytes after the
+// prefix are d - so, by the @message clause below, a read at p returns exactly d and leaves
+// the position at the start of whatever follows.
+//@ lemma be32RoundTrip(s string, p int, pre string, d string, rest string)
+//@   requires len(d) <= 4294967295 && p == len(pre) && streq(s, pre + be32(len(d)) + d + rest)
+//@   ensures be32At(s, p) == len(d)
+//@   ensures len(s) == p + 4 + len(d) + len(rest)
+//@   ensures forall i int :: 0 <= i && i < len(d) ==> s[p + 4 + i] == d[i]
+
 // The reading goroutine: decodes the prefix big-endian; a size above the limit is an error
 // and nothing beyond the prefix is consumed (no buffer of that size is allocated); a clean
 // end after a complete prefix becomes an unexpected end; otherwise the message is exactly
